@@ -66,13 +66,22 @@ func (s *httpProxy) Handle(ctx context.Context, conn net.Conn) error {
 
 	defer conn2.Close()
 
+	// one buffered reader per direction for the whole connection: a reader per message would
+	// throw away the bytes of pipelined requests (or replies) it has already buffered
+	reader := bufio.NewReader(conn)
+	reader2 := bufio.NewReader(conn2)
+
 	for {
-		reader := bufio.NewReader(conn)
 		req, err := http.ReadRequest(reader)
 		if err == io.EOF {
 			return nil
 		} else if err != nil {
 			return err
+		}
+
+		// relay the request as it came: without this, Write adds Go's default User-Agent
+		if _, ok := req.Header["User-Agent"]; !ok {
+			req.Header.Set("User-Agent", "")
 		}
 
 		reqBody := &bytes.Buffer{}
@@ -101,7 +110,6 @@ func (s *httpProxy) Handle(ctx context.Context, conn net.Conn) error {
 
 		var resp *http.Response
 
-		reader2 := bufio.NewReader(conn2)
 		resp, err = http.ReadResponse(reader2, req)
 		if err == io.EOF {
 			return nil
